@@ -113,7 +113,12 @@ class C12(Prop):
         out["columns"] = [f for f in out["fitted"] if f in mc.features]
         out["columns_extra"] = [f for f in mc.features if f not in out["fitted"]]
         X0 = mk_frame(case["X"])
-        Xt = mc.transform(mk_frame(case["X"]))
+        try:
+            Xt = mc.transform(mk_frame(case["X"]))
+        except Exception as e:  # noqa: BLE001
+            out["fit"] = "internal"
+            out["error"] = f"transform of the training frame raised {type(e).__name__}: {e}"[:300]
+            return out
         out["raw_present"] = F in Xt.columns
         out["raw_unchanged"] = out["raw_present"] and bool(
             ((Xt[F] == X0[F]) | (Xt[F].isna() & X0[F].isna())).all())
@@ -137,6 +142,34 @@ class C12(Prop):
             out["index_invariant"] = same
         except Exception as e:  # noqa: BLE001
             out["index_invariant"] = f"{type(e).__name__}: {e}"[:160]
+        # a category never seen at fit: every kept class column must send it to its default group (named by the
+        # str_default the user asked for) when that group exists, otherwise refuse the frame with AssertionError
+        if ft == "categ":
+            sd = case.get("kwargs", {}).get("str_default", "__OTHER__")
+            Xu = mk_frame(case["X"])
+            Xu.iloc[0, list(Xu.columns).index(F)] = "never_seen_value"
+            has_default = {c: any(isinstance(v, str) and v == sd for v in mc.values_orders[c].values())
+                           for c in out["columns"]}
+            try:
+                Xut = mc.transform(Xu)
+                got = {c: Xut[c].iloc[0] for c in out["columns"]}
+                bad = []
+                for c in out["columns"]:
+                    if not has_default[c]:
+                        bad.append(f"{c}: accepted although the column has no default group")
+                        continue
+                    vo_c = mc.values_orders[c]
+                    leader = next(k for k in vo_c if any(isinstance(v, str) and v == sd for v in vo_c.content[k]))
+                    exp = mc.labels_per_values[c][leader]
+                    g = got[c]
+                    if not ((g == exp) or (g != g and exp != exp)):
+                        bad.append(f"{c}: unseen category labelled {g!r}, its default group {sd!r} is labelled {exp!r}")
+                out["unseen"] = bad
+            except AssertionError:
+                out["unseen"] = ([] if (out["columns"] and not all(has_default.values())) or not out["columns"]
+                                 else [f"refused with AssertionError although every kept class column has the default group {sd!r}"])
+            except Exception as e:  # noqa: BLE001
+                out["unseen"] = [f"{type(e).__name__}: {e}"[:160]]
         per = {}
         for name in out["fitted"]:
             cls = name[len(F) + 1:]
@@ -181,6 +214,8 @@ class C12(Prop):
                            f"(kept class columns: {out['columns']})")
         if not out["raw_unchanged"]:
             return False, "raw feature column modified by transform"
+        if out.get("unseen"):
+            return False, "transform of a frame holding a never-seen category: " + "; ".join(out["unseen"][:2])
         if out.get("index_invariant", True) is not True:
             return False, ("transform of the same rows under a non-default row index gives other class columns "
                            f"({out.get('index_invariant')})")
